@@ -9,7 +9,8 @@ CHECKS = {
         "declarative contract and that acceptance implies the user-facing clauses (total counts updates and never goes back, since advances by one "
         "except on the update after a drift / when a kdq reference completes, no report before the warm-up of each detector kind, recommendations "
         "end at the current sample); further theorems show that every one of the 15 Lean detector models is accepted on every history. The same acceptor is executed "
-        "(via mdriver) on multi-drift traces of all 15 real detectors; a rejected row is a concrete failing input.",
+        "(via mdriver) on multi-drift traces of all 15 real detectors; a rejected row is a concrete failing input. A further clause run on the real classes: reading a "
+        "detector between updates (every public attribute, every public no-argument method) changes neither its counters nor anything it reports later.",
    note="Trusted: Lean kernel; the acceptor's table of warm-up rules and restart values (11 kinds, stated in Model/Lifecycle.lean) as the reading of the "
         "property; input-derived signals (EDDM error count, ADWIN width from retraining_recs, kdq reference completion) reconstructed by the harness; "
         "generators (boundary menus, piecewise-stationary streams) bound what the implementation runs see.",
@@ -44,7 +45,7 @@ CHECKS = {
         "are the maximal suffix sums of the standardised current-epoch observations (target/sd given, estimated from the first burn_in observations, or "
         "re-estimated from the last burn_in after a drift) and Page-Hinkley's running mean / cumulative sum / extrema are the documented statistics of the "
         "epoch; for every carrier (incl. the executed Float): no alarm during burn-in, decision = documented test, each step reads only the epoch state "
-        "and the supplied observation, continuation after a drift = fresh detector with the documented carry-over. Tied to the code by differential "
+        "and the supplied observation, continuation after a drift = fresh detector with the documented carry-over; a manual reset() restarts the epoch and never re-estimates. Tied to the code by differential "
         "correspondence (exhaustive small streams + random multi-alarm streams) and an independent exact-rational specification run on implementation traces.",
    note="Trusted: Lean kernel; rounding (field theorems vs Float) covered only by the correspondence and thin-margin rule; excluded: burn_in=0, target "
         "without sd_hat, NaN/inf data; histories containing an update that raised (sd_hat=0) are outside cusum_spec but the raise is modelled and checked.",
@@ -55,7 +56,7 @@ CHECKS = {
         "inputs, the bucket rows partition it into chunks of size 2^row with exact totals / sums of squared deviations, and mean()/variance() are the mean / "
         "population variance of those inputs; for every carrier incl. the executed Float model: W +1 per update, shrinks iff drift, >= 1; drift iff scheduled "
         "and some admissible bucket-boundary split exceeds the epsilon-cut; oldest buckets dropped until none does; recs = [total-W, total-1], cleared next "
-        "update; ADWINAccuracy = ADWIN on indicators with its own parameters; over R the eps-cut is antitone in delta. Tied to adwin.py / adwin_accuracy.py by "
+        "update; ADWINAccuracy = ADWIN on indicators with its own parameters; over R the eps-cut is antitone in delta; a manual reset() clears only the state and the recommendation (window, statistics and check schedule untouched). Tied to adwin.py / adwin_accuracy.py by "
         "step-wise correspondence plus a model-independent exactness check against the raw stream.",
    note="Trusted: Lean kernel, the hand-written model, the bounded correspondence (exhaustive {0,1,16}^7/9 + dyadic level-shift streams <= 400/4000, menus of "
         "DESIGN §7). Field theorems do not cover Float rounding; numpy log vs libm differ by <= 1 ulp, ties below 1e-9 truncate. Excluded: max_buckets=0, "
@@ -122,9 +123,11 @@ CHECKS = {
         "an accepted input fixes them, batch stability outside the proved DataFrame-after-array gap (width_stable_partial + the counter-example), a rejected call "
         "is a no-op and all later traces equal those of the run that never saw it (generic update skeleton with idempotent pending reset; per-wrapper no-op "
         "lemmas for the univariate guards and HDM), container irrelevance. Tied to detector.py and the per-detector guards by exhaustive base-class call "
-        "sequences over a container menu and per-detector malformed-call injection at every position with never-saw-it twins.",
-   note="Trusted: hand-written validation model (string column names); bounded correspondence. Known finding (recorded, a repair breaks an existing test): batch "
-        "DataFrame-after-array width gap.",
+        "sequences over a container menu and per-detector malformed-call injection at every position with never-saw-it twins; probe calls whose acceptance the property leaves open "
+        "(NaN / inf observations, a single-column first input) are injected too: whenever the detector rejects one, it must not be counted and later traces must equal the twin's.",
+   note="Trusted: hand-written validation model (string column names); bounded correspondence. Known findings (recorded): batch DataFrame-after-array width gap "
+        "(a repair breaks an existing test); PCACD, KdqTreeBatch, KdqTreeStreaming, HDDDM, CDBD, NNDVI count a batch / observation holding NaN or inf before a library call raises "
+        "(no finiteness validation in the library; a design decision, not a minimal patch).",
    technique="Lean 4 proof (invariants, induction over histories, simulation) + exhaustive base-class correspondence + malformed-call injection twins on the real detectors",
    ref="§7 C14"),
  "C15": dict(
